@@ -36,7 +36,7 @@ var propPlans = []propPlan{
 		NotDecided: "the relation between two successive responses (a history property) beyond the per-step invariants; arithmetic on runtime counters.",
 		LevelText:  "Per-step inductive invariants of the window and its counters are decided on every path of the rotation functions."},
 	{ID: "C05", Title: "Advertised URIs are fetchable, immutable, consistent",
-		Rules:      []string{"CG0", "P1", "P2", "P3", "P3b", "P4", "P5", "P6", "F2", "F15", "T7", "T7b", "T7c", "T7e", "G3", "T7f", "T7g", "V4g", "P3c", "T7m", "T7n", "L4", "F26b", "P7", "P5b", "F34", "T7q", "F44", "P5c", "T7t", "P8", "G18", "P3g", "P8b", "L9", "P3h", "P9", "F2c", "T7d", "T7p", "T7v", "P3j"},
+		Rules:      []string{"CG0", "P1", "P2", "P3", "P3b", "P4", "P5", "P6", "F2", "F15", "T7", "T7b", "T7c", "T7e", "G3", "T7f", "T7g", "V4g", "P3c", "T7m", "T7n", "L4", "F26b", "P7", "P5b", "F34", "T7q", "F44", "P5c", "T7t", "P8", "G18", "P3g", "P8b", "L9", "P3h", "P9", "F2c", "T7d", "T7p", "T7v", "P3j", "P6c"},
 		NotDecided: "byte equality of a segment and its concatenated parts on disk (offset arithmetic); HTTP semantics outside the handlers.",
 		LevelText:  "Publication protocol: final before published, never written afterwards without the reader's lock, listed = registered, unregistered on expiry, response shape."},
 	{ID: "C06", Title: "Blocking reload, preload hints, delta updates",
@@ -44,7 +44,7 @@ var propPlans = []propPlan{
 		NotDecided: "which (M,P) are accepted or rejected (unsigned arithmetic on runtime counters); what the unblocked response contains; telling an absent _HLS_part from _HLS_part=0.",
 		LevelText:  "Wait/wake discipline over all schedules, _HLS_* filtering, delta-update shape, roll-over reaching the open segment, rejection bounds that track the live window, no response body written under a muxer lock."},
 	{ID: "C07", Title: "Close unblocks every request and releases storage",
-		Rules:      []string{"CG0", "L1", "L2", "L3", "L4", "L6", "P3", "P4", "P6", "L9", "V4i", "L2b", "P4b", "P6b", "V4l", "L3h", "L5d", "L2c", "G13b", "T7t", "T7v", "L2d", "P10"},
+		Rules:      []string{"CG0", "L1", "L2", "L3", "L4", "L6", "P3", "P4", "P6", "L9", "V4i", "L2b", "P4b", "P6b", "V4l", "L3h", "L5d", "L2c", "G13b", "T7t", "T7v", "L2d", "P10", "P6c"},
 		NotDecided: "'promptly' as a time bound; disk I/O latency under the lock.",
 		LevelText:  "Every waiter leaves on a closed flag that Close sets under the lock before broadcasting; no lock leaks on any path; every owned file is released. Argued sufficient (DESIGN 4, C07) for the sub-statement 'every blocked request completes non-200 after Close, no lock left held, every created file removed' under every interleaving, given monitor semantics."},
 	{ID: "C08", Title: "One writer + concurrent readers",
@@ -85,11 +85,11 @@ var propPlans = []propPlan{
 		NotDecided: "which rendition is DEFAULT for a given track list; bandwidth values; RESOLUTION/FRAME-RATE values.",
 		LevelText:  "Query preserved on every URI (filtered by re-encoding the parsed query), rendition attributes carried, CODECS entry per track computed when rendering, exactly one automatic DEFAULT; FRAME-RATE only under a non-zero FPS(); a rendition's language is its track's; no map iteration order in the re-encoded query; the segment sizes that feed BANDWIDTH telescope over all parts. Values are not decided."},
 	{ID: "C17", Title: "Storage",
-		Rules:      []string{"T7", "T7b", "T7c", "T7d", "T7e", "P6", "T7f", "P2", "T7g", "T7h", "L4", "T7k", "T7j", "T7m", "T7n", "T7p", "T7q", "T7r", "F49", "T7t", "T7s", "T7u", "T7v"},
+		Rules:      []string{"T7", "T7b", "T7c", "T7d", "T7e", "P6", "T7f", "P2", "T7g", "T7h", "L4", "T7k", "T7j", "T7m", "T7n", "T7p", "T7q", "T7r", "F49", "T7t", "T7s", "T7u", "T7v", "P6c"},
 		NotDecided: "byte-for-byte equivalence, offsets, reader cursor logic.",
 		LevelText:  "Thin: no read before Finalize in both backends, mirror writer forwards identically, disk part windows and offsets, reader progress (no (0, nil) without a full destination), Remove removes what Create created and does nothing else (no store, no truncation), a slice is clamped to the bound its length was tested against."},
 	{ID: "C18", Title: "Bounded retention",
-		Rules:      []string{"CG0", "G2", "G3", "P3", "P6", "P3c", "G17", "P3e", "K5p", "F33", "G2b", "P5c", "P6b", "P3g", "P3h", "P3i", "G2c", "L5c", "P3j"},
+		Rules:      []string{"CG0", "G2", "G3", "P3", "P6", "P3c", "G17", "P3e", "K5p", "F33", "G2b", "P5c", "P6b", "P3g", "P3h", "P3i", "G2c", "L5c", "P3j", "P6c"},
 		NotDecided: "byte totals per segment.",
 		LevelText:  "Size check before buffering; the window head is dropped whenever the window is over its bound, with its path, its part paths and its file; files released."},
 	{ID: "C19", Title: "LL-HLS parts are regular",
